@@ -96,6 +96,18 @@ class SymCtx:
         self.I.notes[k] = v
 
 
+def _tobool(c):
+    """concrete mode: harness code may still build constant z3 terms"""
+    if is_sym(c):
+        c = z3.simplify(c)
+        if z3.is_true(c):
+            return True
+        if z3.is_false(c):
+            return False
+        raise AssertionError('non-constant condition in concrete mode: ' + str(c)[:200])
+    return bool(c)
+
+
 class ConcCtx:
     symbolic = False
 
@@ -121,21 +133,19 @@ class ConcCtx:
         return self.values[name]
 
     def branch(self, c):
-        assert isinstance(c, (bool, int)), c
-        return bool(c)
+        return _tobool(c)
 
     def assume(self, c):
-        if not c:
+        if not _tobool(c):
             raise PathAbort()
 
     def constrain(self, c):
-        if not c:
+        if not _tobool(c):
             raise PathAbort()
 
     def check(self, cond, msg, role=None):
         self.nchecks += 1
-        assert isinstance(cond, (bool, int)), cond
-        if not cond:
+        if not _tobool(cond):
             raise Violation(msg, role() if callable(role) else role, self.values)
 
     def cover(self, label):
